@@ -16,7 +16,7 @@ PROPS = {
         "assumptions": ["Coh (shape product = element count) for the matrix indexed; established for every reachable matrix by C01"],
     },
     "C10": {
-        "module": "Matreex.Props.C10", "harness": "C10",
+        "module": "Matreex.Props.C10", "harness": "C10", "extra_modules": ["Matreex.Props.SpecLaws"],
         "technique": "Lean 4 theorems (window lemma for the contiguous swap, loop invariant for the strided swap, lift to the logical view for both orders) + correspondence on all shapes/index pairs/element sizes",
         "trusted": ["ptr::swap_nonoverlapping modelled with its precondition (ranges in the buffer, disjoint unless zero bytes); ptr::swap as UB outside the buffer (Model/Swap.lean, Model/Mem.lean)",
                     "the call structure of swap/swap_rows/swap_cols is hand-modelled and tied by correspondence; for zero-sized elements with extents near usize::MAX only the outcome (Ok / IndexOutOfBounds / panic) is compared"],
@@ -28,7 +28,7 @@ PROPS = {
         "assumptions": ["Coh for the matrix indexed (C01)"],
     },
     "C05": {
-        "module": "Matreex.Props.C05", "harness": "C05",
+        "module": "Matreex.Props.C05", "harness": "C05", "extra_modules": ["Matreex.Props.SpecLaws"],
         "technique": "Lean 4 proof of the cycle-following in-place permutation for every injective self-map (two loop invariants), instantiated with the regenerated index functions (T2); induction over compositions; correspondence on all shapes up to 12x12",
         "trusted": ["ptr::swap modelled as UB outside the buffer, visited.get_unchecked_mut as UB outside the bitmap (Model/Mem.lean, Model/Transpose.lean)",
                     "the loop structure of transpose / switch_order / set_order is hand-modelled and tied by correspondence; AxisIndex::swap (a mutating method) is modelled by hand",
